@@ -1765,3 +1765,9 @@ package resolve
 //@   safety no-nilmap
 //@   loop 0:
 //@     invariant parentID == p0 || (p0 != 0 && fieldDeferID != p0 && parentID == gp) || (p0 != 0 && fieldDeferID != p0 && fieldDeferID != gp)
+
+// C09, variable renaming is transparent: plans are made for the operation with canonical variable names; the request's
+// variables carry the client's names and Context.RemapVariables maps canonical -> client. Everything that looks a
+// variable up by its canonical name has to go through Context.VariablesView(), which applies the renaming; the raw
+// Variables are read only by the accessor itself and by the functions that copy or release the context.
+//@ decl readers Context.Variables by Context.VariablesView, Context.clone, Context.Free
